@@ -1047,3 +1047,25 @@ Proof.
   replace (mx + match edge_ty W with Some TFloat => u | _ => 1 end >? me) with false. reflexivity.
   symmetry. rewrite Z.gtb_ltb. apply Z.ltb_ge. lia.
 Qed.
+
+(* the sentinel-overflow class lies inside the float64 class (a replacement value beyond int64 is far beyond
+   2^53): its negation in in_domainb is redundant, it is kept as a class of its own because the failure differs *)
+Lemma kf_sentinel_overflow_beyond : forall u W, kf_sentinel_overflow u W = true -> kf_beyond_2p53 u W = true.
+Proof.
+  intros u W H. unfold kf_sentinel_overflow in H.
+  apply andb_true_iff in H. destruct H as [H H3]. apply andb_true_iff in H. destruct H as [Hn _].
+  destruct (min_edge W) as [lo|]; [|discriminate]. destruct (max_edge W) as [hi|]; [|discriminate].
+  destruct (sentinel u W) as [s|] eqn:Es; [|discriminate].
+  apply andb_true_iff in H3. destruct H3 as [H3 Hbad]. apply andb_true_iff in H3. destruct H3 as [Hlt Hok].
+  apply Z.ltb_lt in Hlt. apply negb_true_iff in Hbad.
+  unfold int_range_okb in Hok, Hbad. rewrite pow2_63, pow2_64 in *.
+  apply orb_false_iff in Hbad. destruct Hbad as [B1 B2].
+  assert (Hs : 9223372036854775808 <= s).
+  { apply orb_true_iff in Hok. destruct Hok as [Hok | Hok]; apply andb_true_iff in Hok; destruct Hok as [O1 O2].
+    - rewrite O1 in B1. simpl in B1. apply Z.ltb_ge in B1. lia.
+    - rewrite O1 in B2. simpl in B2. apply Z.ltb_ge in B2. lia. }
+  unfold kf_beyond_2p53. apply negb_true_iff. unfold float_safeb. apply Z.leb_gt. rewrite pow2_53.
+  unfold filled. rewrite Es.
+  unfold has_null in Hn. apply has_null_cells_true in Hn.
+  destruct (fill_missing s W Hn) as [row [Hr Hx]]. pose proof (msum_abs_in _ _ _ Hr Hx). lia.
+Qed.
